@@ -75,3 +75,16 @@ func init() {
 		Assume: []string{"reftls endpoints interoperate with unmodified gmtls in both roles (honest scripts are part of every batch and must complete)"},
 	}
 }
+
+func init() {
+	realAll := []string{"all gmsm code involved in the scenario: a scratch copy of /repo's working tree, instrumented by /verif/rewrite (locks, once, atomics, time.Now), built for this run"}
+	props["C08"] = propCfg{
+		Level: "exploration",
+		Quick: tierCfg{Runs: 30000, Deadline: 80, RunMS: 60000, MinimiseS: 40},
+		Thor:  tierCfg{Runs: 5000000, Deadline: 1500, RunMS: 60000, MinimiseS: 240},
+		Rule:  "two families. tls-auth-impostor: the scripted reference endpoint terminates the connection itself against an honest gmtls client (items S0-S12: untrusted CA, expired / not yet valid / clock skew of the verifying node across a narrow validity window, wrong name, RSA and P-256 leaves, ServerKeyExchange signed by another key / over replayed randoms from an earlier session of the same run / over another encryption certificate / omitted / malformed, no encryption key with a guessed pre-master, certificates swapped, single certificate) or an honest gmtls server under each ClientAuth policy (items C0-C9: no certificate, untrusted CA, CertificateVerify by another key / over another session's transcript / omitted, self-signed certificate under the lax policies, expired certificate, server clock skew); expected verdict per item and policy (not everything fails). tls-auth-mitm: a rewriting man in the middle between two honest gmtls endpoints changes one plaintext handshake message (byte flip, replacement by the same message of an earlier session, drop, duplicate, swap, suite stripping, ServerHello suite change, certificate substitution) or only re-fragments; oracle: never both complete with different views (messages sent vs received reconstructed from taps on both sides). distinct_nontrivial = distinct signatures (item or rewrite kind, suite, policy, direction, message index and type).",
+		Real:  realAll,
+		Stubs: []string{"simnet (network)", "attacker tasks (impostor = reftls endpoint; rewriting relay)", "virtual clock with per-node skew", "entropy streams", "fixture PKI"},
+		Assume: []string{"reftls endpoints interoperate with unmodified gmtls (honest items S0/C0 in every batch)"},
+	}
+}
